@@ -358,7 +358,13 @@ func runReuseJobs(c *hx.Checker, jobs []opJob) {
 			pairs = append(pairs, pair{-1, -1, i, 3})
 		}
 	}
-	c.Extra["reuse_histories"] = map[string]any{"histories": len(pairs), "groups_all_ordered_pairs": allPairs, "groups_one_predecessor_per_class": classPairs}
+	// (accumulated over batches when a check runs its jobs in several batches)
+	if prev, ok := c.Extra["reuse_histories"].(map[string]any); ok {
+		c.Extra["reuse_histories"] = map[string]any{"histories": len(pairs) + prev["histories"].(int), "groups_all_ordered_pairs": allPairs + prev["groups_all_ordered_pairs"].(int),
+			"groups_one_predecessor_per_class": classPairs + prev["groups_one_predecessor_per_class"].(int), "batches": prev["batches"].(int) + 1}
+	} else {
+		c.Extra["reuse_histories"] = map[string]any{"histories": len(pairs), "groups_all_ordered_pairs": allPairs, "groups_one_predecessor_per_class": classPairs, "batches": 1}
+	}
 	c.ParallelFor(len(pairs), func(k int) {
 		p := pairs[k]
 		cur := &jobs[p.cur]
